@@ -111,6 +111,8 @@ theorem readOnly_prim_obs (c : Ctx) (s s' : State) (p : Prim) (r : p.Res)
   | flush _ => simp [Prim.isRead] at hp
   | mutObj _ _ => simp [Prim.isRead] at hp
   | tagOid _ _ => simp [Prim.isRead] at hp
+  | setConnDb _ => simp [Prim.isRead] at hp
+  | swapDbs _ _ => simp [Prim.isRead] at hp
 
 /-- a read-only program leaves what every key of every database reads as unchanged -/
 theorem readOnly_run_obs {α : Type} (p : Prog α) : ∀ (c : Ctx) (s : State) (j : Nat) (k2 : Bytes),
